@@ -3,6 +3,7 @@ import p_codec
 import p_session
 import p_stream
 import p_conc
+import p_timing
 
 CHECKS = {
     "C01": p_codec.check_C01,
@@ -20,6 +21,8 @@ CHECKS = {
     "C19": p_session.check_C19,
     "C05": p_conc.check_C05,
     "C20": p_conc.check_C20,
+    "C08": p_timing.check_C08,
+    "C09": p_timing.check_C09,
     "C04": p_stream.check_C04,
 }
 
